@@ -65,6 +65,8 @@ func (o op) String() string {
 	switch o.Kind {
 	case "SELECT":
 		return p + "SELECT " + o.Box
+	case "EXAMINE":
+		return p + "EXAMINE " + o.Box
 	case "APPEND":
 		s := p + "APPEND " + o.Box + " (" + strings.Join(o.Flags, " ") + ")"
 		if o.Count > 1 {
@@ -111,6 +113,7 @@ type session struct {
 	c    *imapc.Client
 	id   int64
 	box  string
+	ro   bool        // the mailbox was opened with EXAMINE: every mutating command must be refused, CLOSE expunges nothing
 	seen map[int]int // uid -> entity, pairs seen since the SELECT
 	view []vrow
 }
@@ -570,7 +573,7 @@ func (w *world) exec(o op) error {
 	if w.record {
 		w.ctx.Current(fmt.Sprintf("%s: %s", w.label, opsString(w.ops)), map[string]interface{}{"sessions": len(w.sess), "ops": w.ops})
 	}
-	needSel := o.Kind != "APPEND" && o.Kind != "SELECT"
+	needSel := o.Kind != "APPEND" && o.Kind != "SELECT" && o.Kind != "EXAMINE"
 	if needSel && s.box == "" {
 		w.ops = w.ops[:idx] // session without a selected mailbox (only in shrunk replays): skip
 		return nil
@@ -593,11 +596,18 @@ func (w *world) exec(o op) error {
 	var r imapc.Result
 	var err error
 
+	// a read-only selection: STORE, EXPUNGE, UID EXPUNGE, COPY and MOVE are refused (gluon answers NO also for COPY), nothing changes
+	roRefused := s.ro && (o.Kind == "STORE" || o.Kind == "EXPUNGE" || o.Kind == "UIDEXPUNGE" || o.Kind == "COPY" || o.Kind == "MOVE")
+	roClose := s.ro && o.Kind == "CLOSE"
+	if roRefused || roClose {
+		post = w.m.clone() // whatever the cases below compute on it is thrown away again further down
+	}
 	switch o.Kind {
-	case "SELECT":
-		r, err = s.c.Cmd("SELECT " + o.Box)
+	case "SELECT", "EXAMINE":
+		r, err = s.c.Cmd(o.Kind + " " + o.Box)
 		if err == nil && r.Status == "OK" {
 			s.box = o.Box
+			s.ro = o.Kind == "EXAMINE"
 			s.seen = map[int]int{}
 		}
 		coq = fmt.Sprintf("KClearRecent %d", boxNum(o.Box))
@@ -685,6 +695,7 @@ func (w *world) exec(o op) error {
 					return fmt.Errorf("SELECT %s after CLOSE: %v %s %s", o.Box, err2, r2.Status, r2.Text)
 				}
 				s.box = o.Box
+				s.ro = false
 				s.seen = map[int]int{}
 				coqAfter = fmt.Sprintf("mkStep (KClearRecent %d) true None", boxNum(o.Box))
 			}
@@ -716,6 +727,16 @@ func (w *world) exec(o op) error {
 		coq = fmt.Sprintf("K%s %d %d %s", strings.Title(strings.ToLower(o.Kind)), src.Num, boxNum(o.Box), coqSegs(targets))
 	default:
 		return fmt.Errorf("unknown op kind %q", o.Kind)
+	}
+	if (roRefused || roClose) && w.record {
+		w.sit(o, "read-only")
+	}
+	if roRefused {
+		expect = "FAIL"
+		post = w.m.clone()
+	}
+	if roClose {
+		post = w.m.clone() // CLOSE of a read-only selection expunges nothing
 	}
 	if err != nil {
 		return fmt.Errorf("%s: %v", o.String(), err)
@@ -795,9 +816,21 @@ func (w *world) exec(o op) error {
 	if !valid && got != "OK" {
 		return nil
 	}
+	if roRefused && got != "OK" || o.Kind == "EXAMINE" {
+		return nil // read-only selections are not part of the Coq model: a refused command / EXAMINE is no step
+	}
 	views := "(" + coqViews(obs) + ")"
 	if o.Kind == "SELECT" {
 		views = "None" // environment step
+	}
+	if roClose {
+		coq = "" // no implicit expunge; only the SELECT that follows is a step
+	}
+	if coq == "" {
+		if coqAfter != "" {
+			w.steps = append(w.steps, coqAfter)
+		}
+		return nil
 	}
 	w.steps = append(w.steps, fmt.Sprintf("mkStep (%s) %s %s", coq, common.CoqBool(got == "OK"), views))
 	if coqAfter != "" {
